@@ -3,7 +3,7 @@ from props._common import COMMON_TB
 PROP = dict(
     title="Channels deliver each value once, in order, as a valid independent copy",
     lean_module="AbraProofs.Properties.C09",
-    required_theorems=["C09_chanInv_new", "C09_chan_refines_queue", "C09_chan_refines_queue_runN", "C09_chan_fifo",
+    required_theorems=["C09_chanInv_new", "C09_chan_refines_queue", "C09_chan_refines_queue_runN", "C09_chan_fifo", "C09_chan_count",
                        "C09_read_blocks_only_reader", "C09_blocked_reader_turn", "C09_chan_copy_scalar",
                        "C09_chan_copy_valid_partial", "C09_chan_copy_graph_partial", "C09_chan_copy_mutated_counterexample",
                        "C09_chan_copy_reclaimed_counterexample"],
@@ -16,7 +16,10 @@ PROP = dict(
          "main->task or task->main with mutations on both sides after the hand-over, plus shared and cyclic payloads (one Box twice "
          "in an array, a struct containing itself, one array under two fields, the same array written twice = two independent "
          "copies; cycles rooted at an array - array->struct->array, array->variant->array, array->array->variant->array - and at "
-         "a variant; an empty array). Every program runs in a child process (a host abort is reported with its program). spec_fail: per channel the hook's popped "
+         "a variant; an empty array); plus other routes to the channel instructions: element type void through the members "
+         "and through the channel_read/channel_write intrinsics (repaired defect D89, hard regression), a void channel between two "
+         "tasks, the intrinsics and the type-qualified members `channel.read(c)` on an int channel, `channel` as a first-class "
+         "constructor value. Every program runs in a child process (a host abort is reported with its program). spec_fail: per channel the hook's popped "
          "(bits,tag) sequence is a prefix of the pushed sequence (order, once); output and final value equal those of a "
          "sequential oracle program without tasks/channels (producer/consumer) or the renderings computed in Rust (nested "
          "values: as written; receiver's mutations; sender's later mutations invisible). Model cases: one scheduler trace per "
